@@ -25,6 +25,9 @@ CHECKS = {
     "C05": dict(level="model_checking", tech="symbolic execution of split() over an uninterpreted byte sequence (segment lists + LIA), z3 decides byte identity, timing and equality with the tokenizer segmentation",
                 text="Real split()/AudioRegion.split chain on inputs of <=4 (quick) / 6 (thorough) analysis windows with sample count, window size and window counts as unbounded integers; formats and rates enumerated.",
                 ref="§5 C05"),
+    "C07": dict(level="model_checking", tech="symbolic execution through a numpy shim (sqrt/log10/square uninterpreted with instantiated axioms), one z3 query per configuration over symbolic bytes and threshold",
+                text="Real energy validator on windows of every width 1/2/4 x 1-3 (4) channels x 1-2 (3) samples per channel with every byte and the threshold symbolic, all channel selectors incl. out-of-range and unknown; decision == statement, monotone in the threshold, stateless.",
+                ref="§5 C07", note="Trusted in addition: the numpy shim (self-validated against numpy each run); float64 rounding inside numpy is outside the claim."),
     "C08": dict(level="model_checking", tech="symbolic execution + z3: 3+N real runs per path (generator, callback, list, every prefix) with a counting source",
                 text="Hand-over moment, single end-of-stream request, delivery-mode equality and prefix consistency decided per path for streams of <=5 (quick) / 8 (thorough) frames with unbounded parameters; split() laziness on the byte-level harness.",
                 ref="§5 C08"),
